@@ -343,7 +343,13 @@ def gen_dro_sep(rng, cfg):
             add({'op': 'supp', 'amb': an, 'scen': sc, 'set': ref.set_constraints(blocks, zs), 'blocks': blocks},
                 [sa] + list(s_z.values()), role='supp', anchor=sa)
         P = gen_probset(rng, S)
-        add({'op': 'prob', 'amb': an, 'set': ref.prob_constraints('m.p', P)}, [sa], role='prob', late=rng.random() < 0.5)
+        pdeps = [sa]
+        if rng.random() < cfg.get('p_probset_redeclared', 0.3):
+            # a probability set declared earlier for the same ambiguity set and then re-declared: the later one replaces it
+            P_old = gen_probset(rng, S)
+            pdeps.append(add({'op': 'prob', 'amb': an, 'set': ref.prob_constraints('m.p', P_old)}, [sa], role='prob',
+                             late=rng.random() < 0.3, replaced=True))
+        add({'op': 'prob', 'amb': an, 'set': ref.prob_constraints('m.p', P)}, pdeps, role='prob', late=rng.random() < 0.5)
         ambs[an] = {'supports': supports, 'P': P, 'moments': []}
         if moment_mode:
             nz_ = zs['z']
@@ -387,10 +393,39 @@ def gen_dro_sep(rng, cfg):
                 add({'op': 'expt', 'amb': an, 'scen': sc, 'set': cs}, [sa] + list(s_z.values()), role='expt', late=rng.random() < 0.5)
                 ambs[an]['moments'].append((ev, mlo, mhi))
             ambs[an]['boxes'] = boxes
+            # second-order-cone mean sets ||E[z_I | event] - ctr||_2 <= rad, possibly two of different cone sizes
+            ambs[an]['balls'] = []
+            if rng.random() < cfg.get('p_moment_balls', 0.4):
+                sizes = [nz_] + ([rng.randint(1, nz_ - 1)] if nz_ >= 2 and rng.random() < 0.7 else [])
+                rng.shuffle(sizes)
+                for k_ in sizes:
+                    ev = sorted(rng.sample(range(S), rng.randint(1, S))) if rng.random() < 0.6 else list(range(S))
+                    tot = sum(phat[s_] for s_ in ev)
+                    I = list(range(k_))
+                    ctr = [round(sum(phat[s_] * (boxes[s_][0][i] + boxes[s_][1][i]) / 2.0 for s_ in ev) / tot + gen.r2(rng, -0.1, 0.1), 4)
+                           for i in I]
+                    rad = gen.r2(rng, 0.15, 0.7)
+                    ez = ['E', ['v', 'z']] if k_ == nz_ else ['i', ['E', ['v', 'z']], [0, k_]]
+                    cs = [['<=', ['norm', ['-', ez, ['c', ctr]], 2], ['c', rad]]]
+                    if len(ev) == S and rng.random() < 0.5:
+                        sc = None
+                    else:
+                        labs = [labels[q] for q in ev]
+                        sc = labs if intlab else {'loc': labs}
+                    try:        # keep the ball only if the ambiguity set stays non-empty with margin
+                        ref.worst_case_expectation_moments(P, boxes, [0.0] * nz_, ambs[an]['moments'],
+                                                           balls=ambs[an]['balls'] + [(ev, I, ctr, rad - 0.02)])
+                    except RuntimeError:
+                        continue
+                    add({'op': 'expt', 'amb': an, 'scen': sc, 'set': cs}, [sa] + list(s_z.values()), role='expt', late=rng.random() < 0.5)
+                    ambs[an]['balls'].append((ev, I, ctr, rad))
+                if ambs[an]['balls']:
+                    cone = 'soc'
 
     def wce(an, a):
-        if ambs[an]['moments']:
-            return ref.worst_case_expectation_moments(ambs[an]['P'], ambs[an]['boxes'], a['z'], ambs[an]['moments'])
+        if ambs[an]['moments'] or ambs[an].get('balls'):
+            return ref.worst_case_expectation_moments(ambs[an]['P'], ambs[an]['boxes'], a['z'], ambs[an]['moments'],
+                                                      balls=ambs[an].get('balls'))
         deltas = [ref.support(ambs[an]['supports'][s_], a) for s_ in range(S)]
         return ref.worst_case_expectation(ambs[an]['P'], deltas)
 
@@ -475,7 +510,7 @@ def gen_dro_sep(rng, cfg):
             ce = [ce[0], ['E', ce[1]], ce[2]] if ce[0] == '<=' else [ce[0], ce[1], ['E', ce[2]]]
         cdeps = {s_x[k]} | set(s_x) | set(s_z.values()) | set(before_expr) | set(all_adapt)
         pw = False
-        if etype and not ambs[an]['moments'] and rng.random() < 0.3:
+        if etype and not ambs[an]['moments'] and not ambs[an].get('balls') and rng.random() < 0.3:
             # E(maxof(x + a1.z, x + a2.z)) <= b: sup of a max is the max of sups per scenario, then the worst case over p
             pw = True
             a2 = _coef(rng, zs)
@@ -512,9 +547,10 @@ def gen_dro_sep(rng, cfg):
         else:
             c0 = obj_info['c0']
             A = ambs[default_amb]
-            if A['moments']:
+            if A['moments'] or A.get('balls'):
                 a_ = [-v for v in c0['z']] if c0 else [0.0] * zs['z']
-                expect['obj'] = -ref.worst_case_expectation_moments(A['P'], A['boxes'], a_, A['moments'], vconst=[-v for v in vs])
+                expect['obj'] = -ref.worst_case_expectation_moments(A['P'], A['boxes'], a_, A['moments'], vconst=[-v for v in vs],
+                                                                    balls=A.get('balls'))
             else:
                 neg = {zn: [-v for v in a] for zn, a in c0.items()} if c0 else None
                 deltas = [(ref.support(A['supports'][s_], neg) if neg else 0.0) - vs[s_] for s_ in range(S)]
